@@ -1,7 +1,7 @@
 SPECIFICATION Spec
 CONSTANTS
-  MaxTx = 2
+  MaxTx = 3
   Amts = {1, 5}
-  MaxEdicts = 2
+  MaxEdicts = 1
 INVARIANTS Conservation NoZeroBalance MintsBounded OnlyOpenMints BurnOnly IdsAreEtchings
 CHECK_DEADLOCK FALSE
